@@ -184,6 +184,49 @@ theorem C30_partial (s : S) (l : Label)
           have := h i t ht (by intro hc; rw [hc] at hpc; simp at hpc)
           simp [isStale, this]
 
+/-! ### Agent.doPoll: "once a wake has completed, no poll activity started earlier … disconnects" -/
+
+/-- doPoll never disconnects an awake agent. -/
+def C30_dopoll_statement : Prop :=
+  ∀ (sched : List DLabel), DEvent.disconnect true ∉ (drun DS.init sched).2
+
+/-- REFUTED: the state check and `DisconnectAll()` are not atomic — a Wake() completing in between
+    is followed by the disconnect. -/
+theorem C30_dopoll_refuted : ¬ C30_dopoll_statement := by
+  intro h
+  exact h [.sleep, .dpStart, .wake, .dpRelease] (by decide)
+
+/-- … and it holds whenever no Wake() completes between doPoll's check and its disconnect: a
+    parked doPoll found the agent not awake, and only `wake` makes it awake. -/
+theorem C30_dopoll_partial (s : DS) (l : DLabel) (hinv : s.parked = true → s.st ≠ .awake) :
+    DEvent.disconnect true ∉ (dstep s l).2.2 ∧
+    (l ≠ .wake → ((dstep s l).1.parked = true → (dstep s l).1.st ≠ .awake)) := by
+  cases l with
+  | sleep =>
+    simp only [dstep]
+    by_cases ha : s.st = .awake
+    · rw [if_pos ha]; exact ⟨by simp, fun _ _ => by simp⟩
+    · rw [if_neg ha]; exact ⟨by simp, fun _ => hinv⟩
+  | wake =>
+    simp only [dstep]
+    by_cases ha : s.st = .awake
+    · rw [if_pos ha]; exact ⟨by simp, fun h => absurd rfl h⟩
+    · rw [if_neg ha]; exact ⟨by simp, fun h => absurd rfl h⟩
+  | dpStart =>
+    simp only [dstep]
+    by_cases hp : s.parked = true
+    · rw [if_pos hp]; exact ⟨by simp, fun _ => hinv⟩
+    · rw [if_neg hp]
+      by_cases ha : s.st = .awake
+      · rw [if_pos ha]; exact ⟨by simp, fun _ => hinv⟩
+      · rw [if_neg ha]; exact ⟨by simp, fun _ _ => ha⟩
+  | dpRelease =>
+    simp only [dstep]
+    by_cases hp : s.parked = true
+    · have hna := hinv hp
+      simp [hp, hna]
+    · simp at hp; simp [hp]
+
 /-! Vacuity: the hypotheses are met by real runs. -/
 example : Reachable 2 (run (S.init 2) [.sleep, .pollBegin 0, .pollInvoke 0, .pollReturn 0, .pollEnd 0]).1 := by
   exact .step (.pollEnd 0) (.step (.pollReturn 0) (.step (.pollInvoke 0) (.step (.pollBegin 0) (.step .sleep .init))))
